@@ -21,6 +21,17 @@ Definition S_volumes_count : Prop :=
   In st (lp_run g sched) -> l < nlen g ->
   get (lp_volumes st) l = ncount l (lp_labels st).
 
+(** ** The sorts: the comparators of [combine] (key [ckey]) and of [labels_to_ranks] (a
+    stable sort, key [rkey]) are total orders without ties on node identifiers, so ANY
+    correct sorting algorithm (parallel, unstable) returns the sequence of the model *)
+Definition S_sort_unique : Prop :=
+  forall (kf : N -> key) (l p : list N),
+  (forall a, key_id (kf a) = a) ->
+  Permutation p l ->
+  (forall i j, (i < j < length p)%nat ->
+     key_leb (kf (nth i p 0)) (kf (nth j p 0)) = true) ->
+  p = sort_ids kf l.
+
 (** ** [combine] *)
 Definition S_combine_refinement : Prop :=
   forall (result labels : list N) (a b : N),
